@@ -65,6 +65,10 @@ fn main() {
                 i += 1;
                 let s = std::fs::read_to_string(&args[i]).expect("replay file");
                 replay = Some(serde_json::from_str::<serde_json::Value>(&s).expect("replay json"));
+                // a case that does not return is replayed by running the check again (the watchdog reports it)
+                if replay.as_ref().map_or(false, |r| r["replay"]["hang"] == true) {
+                    replay = None;
+                }
             }
             "--worker" => {
                 i += 1;
